@@ -114,7 +114,9 @@ Definition validate_optional (prog : key) (a : option acct) (ls : list layer) : 
 
 (* Vec<T> of single-account sets validated as a whole (account_set/impls/vec.rs 158-224): every element in order with
    the element's own argument; the argument forms are 0 = `()`, 1 = `(TA,)` (cloned for every element), 2 = `Vec<TA>` with
-   k arguments (at least one per account, surplus ignored), 3 = `[TA; k]` (exactly one per account) *)
+   k arguments (at least one per account, surplus ignored), 3 = `[TA; k]` (exactly one per account); any other form code
+   stands for a container without an argument-count condition: the fixed-size array `[T; n]` with `()`, `(TA,)`, `[TA; n]`
+   (impls/array.rs 112-145: codes 4, 5, 6) and `Rest<T>` (rest.rs 28-34: code 7) *)
 Definition validate_vec (accs : list acct) (ls : list layer) (form k : Z) : out unit :=
   if (form =? 2) && (k <? zlen accs) then Err PE_INVALID_ARGUMENT
   else if (form =? 3) && negb (k =? zlen accs) then Err PE_INVALID_ARGUMENT
